@@ -9,10 +9,10 @@ import (
 	"math/rand"
 	"sync"
 
+	"perun.network/go-perun/apps/payment"
 	_ "perun.network/go-perun/backend/sim" // registers the sim backends
 	simchannel "perun.network/go-perun/backend/sim/channel"
 	simwallet "perun.network/go-perun/backend/sim/wallet"
-	"perun.network/go-perun/apps/payment"
 	"perun.network/go-perun/channel"
 	"perun.network/go-perun/wallet"
 
@@ -339,6 +339,6 @@ type rsrc struct{ r *kernel.Rand }
 
 func randSource(r *kernel.Rand) *rand.Rand { return rand.New(rsrc{r}) }
 
-func (s rsrc) Int63() int64  { return int64(s.r.Uint64() >> 1) }
+func (s rsrc) Int63() int64   { return int64(s.r.Uint64() >> 1) }
 func (s rsrc) Uint64() uint64 { return s.r.Uint64() }
-func (s rsrc) Seed(int64)    {}
+func (s rsrc) Seed(int64)     {}
